@@ -101,3 +101,12 @@ Definition xstep (h : sheap) (o : hop) : sheap * option sfx :=
   end.
 
 Definition xrun (ops : list hop) (h : sheap) : sheap := fold_left (fun h o => fst (xstep h o)) ops h.
+
+(* ---- Go's int loads. The proxy's self-reported client count is a Go int (64 bit, signed; the wire accepts every
+   value of that range, negative ones included), the model's loads are N. The model only ever COMPARES loads, so an
+   order embedding transfers every statement: int64 value z stands for emb z = z + 2^63 (Proofs/BrokerHeapProofs.v
+   emb_order: strictly monotonic, unemb its inverse). The `heapz` runner op and the scenario glue apply it. *)
+Definition OFFS : Z := 9223372036854775808.
+Definition emb (z : Z) : N := Z.to_N (z + OFFS).
+Definition unemb (n : N) : Z := (Z.of_N n - OFFS)%Z.
+Definition int64_range (z : Z) : bool := ((- OFFS <=? z) && (z <? OFFS))%Z.
